@@ -1,4 +1,5 @@
 import D2V.Model.Glob
+import D2V.Model.GlobSem
 /-!
   C12 — Globs apply to exactly the matching objects and connections, even later ones.
 
@@ -19,8 +20,16 @@ import D2V.Model.Glob
                                  `C12_cx_keyword_case`: the pinned code matches `Shape`)
   * `no_self_edge`, `glob_edges_complete`  a connection glob connects exactly the pairs of distinct matches
 
-  The clause "a glob acts like its expansion, also on later targets" is not a theorem here: it is evaluated on the
-  real compiler (compile p = compile (expand p), `expand` being the Lean function of `Model/GlobExpand.lean`).
+  * `C12_glob_is_expansion_partial` (`Model/GlobSem.lean`: one block, attribute globs, any matcher, no deletions —
+                                 decidable hypothesis `noDel`) the compiler's bookkeeping (`appliedFields`, application
+                                 at the glob's declaration, lazy pass over all active globs after each creation)
+                                 computes exactly the board of the expanded program; the invariant is "a glob's applied
+                                 set = the existing objects it matches"
+  * `C12_cx_redeclared_after_null`  … which deletions break: `*.k: v; d; d: null; d` leaves `d` unglobbed
+
+  Beyond that fragment (nested blocks, `**`, map-valued globs, connection globs) the clause "a glob acts like its
+  expansion, also on later targets" is evaluated on the real compiler (compile p = compile (expand p), `expand`
+  being the Lean function of `Model/GlobExpand.lean`).
 -/
 namespace D2V.Glob
 
@@ -479,3 +488,260 @@ theorem glob_edges_complete (srcs dsts : List String) (s d : String) (hs : s ∈
   exact ⟨s, hs, d, ⟨hd, by simpa using fun h => hne h.symm⟩, rfl⟩
 
 end D2V.Glob
+
+/-! ### the expansion clause on one block -/
+namespace D2V.GlobSem
+open D2V.Boards
+
+variable (m : String → String → Bool)
+
+theorem has_eq_contains (c : Content) (n : String) : c.has n = (names c).contains n := by
+  induction c with
+  | nil => rfl
+  | cons e r ih =>
+    simp only [Content.has, names, List.any_cons, List.map_cons, List.contains_cons] at ih ⊢
+    rw [ih]
+    congr 1
+    by_cases h : e.1 = n
+    · subst h; simp
+    · have h' : ¬ n = e.1 := fun hh => h hh.symm
+      rw [beq_eq_false_iff_ne.mpr h, beq_eq_false_iff_ne.mpr h']
+
+theorem mem_names_of_has {c : Content} {n : String} (h : c.has n = true) : n ∈ names c := by
+  rw [has_eq_contains] at h; simpa using h
+
+theorem names_set_existing (c : Content) (n k v : String) (h : n ∈ names c) :
+    names (applyOp c (.set n k v)) = names c := by
+  have hh : c.has n = true := by rw [has_eq_contains]; simpa using h
+  simp only [applyOp, hh, if_true, names, List.map_map]
+  apply List.map_congr_left
+  intro e _
+  simp only [Function.comp]
+  split
+  · rename_i he; simp only [beq_iff_eq] at he; exact he.symm
+  · rfl
+
+theorem names_decl_new (c : Content) (n : String) (h : n ∉ names c) :
+    names (applyOp c (.decl n)) = names c ++ [n] := by
+  have hh : c.has n = false := by rw [has_eq_contains]; simpa using h
+  simp [applyOp, hh, names]
+
+theorem names_decl_old (c : Content) (n : String) (h : n ∈ names c) : applyOp c (.decl n) = c := by
+  have hh : c.has n = true := by rw [has_eq_contains]; simpa using h
+  simp [applyOp, hh]
+
+/-- setting attributes of existing objects one after the other is `applyOps` of the corresponding declarations -/
+theorem foldl_sets (k v : String) : ∀ (ts : List String) (c : Content),
+    ts.foldl (fun c n => applyOp c (.set n k v)) c = applyOps c (ts.map fun n => Op.set n k v)
+  | [], c => by simp [applyOps]
+  | t :: ts, c => by
+    simp only [List.foldl_cons, List.map_cons, applyOps]
+    have := foldl_sets k v ts (applyOp c (.set t k v))
+    simpa [applyOps] using this
+
+theorem names_sets (k v : String) : ∀ (ts : List String) (c : Content), (∀ t ∈ ts, t ∈ names c) →
+    names (applyOps c (ts.map fun n => Op.set n k v)) = names c
+  | [], c, _ => by simp [applyOps]
+  | t :: ts, c, h => by
+    simp only [List.map_cons, applyOps, List.foldl_cons]
+    have h1 := names_set_existing c t k v (h t List.mem_cons_self)
+    have := names_sets k v ts (applyOp c (.set t k v)) (fun t' ht' => by rw [h1]; exact h t' (List.mem_cons_of_mem _ ht'))
+    simp only [applyOps] at this
+    rw [this, h1]
+
+def spec (gs : List G) : List (String × String × String) := gs.map fun g => (g.pat, g.key, g.val)
+
+/-- what the lazy pass does to the bookkeeping when `n` has just been created -/
+def markNew (n : String) (gs : List G) : List G :=
+  gs.map fun g => if m g.pat n then { g with applied := g.applied ++ [n] } else g
+
+theorem spec_markNew (n : String) (gs : List G) : spec (markNew m n gs) = spec gs := by
+  simp only [spec, markNew, List.map_map]
+  apply List.map_congr_left
+  intro g _
+  simp only [Function.comp]
+  split <;> rfl
+
+/-- the targets of a glob right after `n` was created, when the glob is up to date on the older objects -/
+theorem targets_new (g : G) (ns : List String) (n : String) (hn : n ∉ ns)
+    (hsub : ∀ a ∈ g.applied, a ∈ ns) (hall : ∀ a ∈ ns, m g.pat a = true → a ∈ g.applied) :
+    ((ns ++ [n]).filter fun a => m g.pat a && !g.applied.contains a) = if m g.pat n then [n] else [] := by
+  rw [List.filter_append]
+  have h1 : (ns.filter fun a => m g.pat a && !g.applied.contains a) = [] := by
+    rw [List.filter_eq_nil_iff]
+    intro a ha
+    by_cases hm : m g.pat a = true
+    · have := hall a ha hm
+      simp [hm, this]
+    · simp [hm]
+  have hna : n ∉ g.applied := fun h => hn (hsub n h)
+  rw [h1]
+  by_cases hm : m g.pat n = true <;> simp [hm, hna]
+
+theorem lazyRun_new : ∀ (gs : List G) (c : Content) (ns : List String) (n : String),
+    names c = ns ++ [n] → n ∉ ns →
+    (∀ g ∈ gs, ∀ a ∈ g.applied, a ∈ ns) → (∀ g ∈ gs, ∀ a ∈ ns, m g.pat a = true → a ∈ g.applied) →
+    lazyRun m gs c = (markNew m n gs, applyOps c (lazyOps m (spec gs) n))
+  | [], c, ns, n, _, _, _, _ => by simp [lazyRun, markNew, lazyOps, spec, applyOps]
+  | g :: rest, c, ns, n, hc, hn, hsub, hall => by
+    have ht := targets_new m g ns n hn (hsub g List.mem_cons_self) (hall g List.mem_cons_self)
+    simp only [lazyRun, applyG, hc, ht]
+    by_cases hm : m g.pat n = true
+    · simp only [hm, if_true, List.foldl_cons, List.foldl_nil]
+      have hc' : names (applyOp c (.set n g.key g.val)) = ns ++ [n] := by
+        rw [names_set_existing c n g.key g.val (by rw [hc]; simp), hc]
+      have ih := lazyRun_new rest (applyOp c (.set n g.key g.val)) ns n hc' hn
+        (fun g' hg' => hsub g' (List.mem_cons_of_mem _ hg')) (fun g' hg' => hall g' (List.mem_cons_of_mem _ hg'))
+      rw [ih]
+      simp [markNew, hm, lazyOps, spec, applyOps]
+    · simp only [hm, Bool.false_eq_true, if_false, List.foldl_nil, List.append_nil]
+      have ih := lazyRun_new rest c ns n hc hn
+        (fun g' hg' => hsub g' (List.mem_cons_of_mem _ hg')) (fun g' hg' => hall g' (List.mem_cons_of_mem _ hg'))
+      rw [ih]
+      simp [markNew, hm, lazyOps, spec]
+
+/-- the simulation invariant: the applied sets are exactly "every existing object the glob matches" -/
+structure Inv (st : St) (x : XSt) : Prop where
+  names_eq : names st.c = x.ns
+  globs_eq : spec st.gs = x.gs
+  applied_sub : ∀ g ∈ st.gs, ∀ a ∈ g.applied, a ∈ x.ns
+  applied_all : ∀ g ∈ st.gs, ∀ a ∈ x.ns, m g.pat a = true → a ∈ g.applied
+
+theorem inv_markNew {st : St} {x : XSt} (h : Inv m st x) (n : String) (c' : Content)
+    (hc' : names c' = x.ns ++ [n]) :
+    Inv m { c := c', gs := markNew m n st.gs } { x with ns := x.ns ++ [n] } where
+  names_eq := hc'
+  globs_eq := by simp only [spec_markNew]; exact h.globs_eq
+  applied_sub := by
+    intro g hg a ha
+    simp only [markNew, List.mem_map] at hg
+    obtain ⟨g0, hg0, rfl⟩ := hg
+    simp only [List.mem_append, List.mem_singleton]
+    by_cases hm : m g0.pat n = true
+    · simp only [hm, if_true, List.mem_append, List.mem_singleton] at ha
+      rcases ha with ha | ha
+      · exact Or.inl (h.applied_sub g0 hg0 a ha)
+      · exact Or.inr ha
+    · simp only [hm, Bool.false_eq_true, if_false] at ha
+      exact Or.inl (h.applied_sub g0 hg0 a ha)
+  applied_all := by
+    intro g hg a ha hma
+    simp only [markNew, List.mem_map] at hg
+    obtain ⟨g0, hg0, rfl⟩ := hg
+    simp only [List.mem_append, List.mem_singleton] at ha
+    by_cases hm : m g0.pat n = true
+    · simp only [hm, if_true] at hma ⊢
+      simp only [List.mem_append, List.mem_singleton]
+      rcases ha with ha | ha
+      · exact Or.inl (h.applied_all g0 hg0 a ha hma)
+      · exact Or.inr ha
+    · simp only [hm, Bool.false_eq_true, if_false] at hma ⊢
+      rcases ha with ha | ha
+      · exact h.applied_all g0 hg0 a ha hma
+      · subst ha; exact absurd hma hm
+
+theorem names_applyOps_lazy (c : Content) (gs : List (String × String × String)) (n : String) (hn : n ∈ names c) :
+    names (applyOps c (lazyOps m gs n)) = names c := by
+  induction gs generalizing c with
+  | nil => simp [lazyOps, applyOps]
+  | cons g rest ih =>
+    simp only [lazyOps, List.filter_cons]
+    split
+    · simp only [List.map_cons, applyOps, List.foldl_cons]
+      have h1 := names_set_existing c n g.2.1 g.2.2 hn
+      have := ih (applyOp c (.set n g.2.1 g.2.2)) (by rw [h1]; exact hn)
+      simp only [lazyOps, applyOps] at this
+      rw [this, h1]
+    · exact ih c hn
+
+/-- one declaration: the compiler's step is the reference's explicit declarations, and the invariant is kept -/
+theorem step_sim (st : St) (x : XSt) (s : GStmt) (h : Inv m st x) (hs : ∀ n, s ≠ .del n) :
+    (step m st s).c = applyOps st.c (xstep m x s).1 ∧ Inv m (step m st s) (xstep m x s).2 := by
+  have hhas : ∀ n, st.c.has n = decide (n ∈ x.ns) := fun n => by
+    rw [has_eq_contains, h.names_eq]; simp
+  cases s with
+  | del n => exact absurd rfl (hs n)
+  | decl n =>
+    by_cases hn : n ∈ x.ns
+    · simp [step, xstep, hhas, hn, applyOps, h]
+    · have hn' : n ∉ x.ns := hn
+      have hc1 : names (applyOp st.c (.decl n)) = x.ns ++ [n] := by
+        rw [names_decl_new _ _ (by rw [h.names_eq]; exact hn'), h.names_eq]
+      have hl := lazyRun_new m st.gs _ x.ns n hc1 hn' h.applied_sub h.applied_all
+      simp only [step, xstep, hhas, hn, decide_false, decide_true, List.contains_eq_mem, Bool.false_eq_true, if_false, hl, h.globs_eq]
+      refine ⟨by simp [applyOps], ?_⟩
+      apply inv_markNew m h
+      rw [names_applyOps_lazy m _ _ _ (by rw [hc1]; simp), hc1]
+  | set n k v =>
+    by_cases hn : n ∈ x.ns
+    · have hmem : n ∈ names st.c := by rw [h.names_eq]; exact hn
+      simp only [step, xstep, hhas, hn, decide_true, List.contains_eq_mem, if_true]
+      refine ⟨by simp [applyOps], ?_⟩
+      exact { names_eq := by simp only []; rw [names_set_existing _ _ _ _ hmem, h.names_eq]
+              globs_eq := h.globs_eq, applied_sub := h.applied_sub, applied_all := h.applied_all }
+    · have hn' : n ∉ x.ns := hn
+      have hc1 : names (applyOp st.c (.decl n)) = x.ns ++ [n] := by
+        rw [names_decl_new _ _ (by rw [h.names_eq]; exact hn'), h.names_eq]
+      have hl := lazyRun_new m st.gs _ x.ns n hc1 hn' h.applied_sub h.applied_all
+      simp only [step, xstep, hhas, hn, decide_false, List.contains_eq_mem, Bool.false_eq_true, if_false, hl, h.globs_eq]
+      refine ⟨by simp [applyOps, List.foldl_append], ?_⟩
+      apply inv_markNew m h
+      have h2 : names (applyOps (applyOp st.c (.decl n)) (lazyOps m x.gs n)) = x.ns ++ [n] := by
+        rw [names_applyOps_lazy m _ _ _ (by rw [hc1]; simp), hc1]
+      rw [names_set_existing _ _ _ _ (by rw [h2]; simp), h2]
+  | glob p k v =>
+    simp only [step, xstep, applyG, List.contains_nil, Bool.not_false, Bool.and_true, List.nil_append, h.names_eq]
+    have hts : ∀ t ∈ x.ns.filter (fun n => m p n), t ∈ names st.c := by
+      intro t ht; rw [h.names_eq]; exact (List.mem_filter.mp ht).1
+    refine ⟨foldl_sets k v _ _, ?_⟩
+    exact {
+      names_eq := by
+        simp only []
+        rw [foldl_sets, names_sets k v _ _ hts, h.names_eq]
+      globs_eq := by simp [spec, ← h.globs_eq]
+      applied_sub := by
+        intro g hg a ha
+        simp only [List.mem_append, List.mem_singleton] at hg
+        rcases hg with hg | hg
+        · exact h.applied_sub g hg a ha
+        · subst hg; exact (List.mem_filter.mp ha).1
+      applied_all := by
+        intro g hg a ha hma
+        simp only [List.mem_append, List.mem_singleton] at hg
+        rcases hg with hg | hg
+        · exact h.applied_all g hg a ha hma
+        · subst hg; exact List.mem_filter.mpr ⟨ha, hma⟩ }
+
+theorem run_sim : ∀ (p : List GStmt) (st : St) (x : XSt), Inv m st x → noDel p = true →
+    (p.foldl (step m) st).c = applyOps st.c (expand m x p)
+  | [], st, x, _, _ => by simp [expand, applyOps]
+  | s :: rest, st, x, h, hd => by
+    have hs : ∀ n, s ≠ .del n := by
+      intro n hsn; subst hsn; simp [noDel] at hd
+    have hrest : noDel rest = true := by
+      cases s <;> simp_all [noDel]
+    obtain ⟨hc, hi⟩ := step_sim m st x s h hs
+    simp only [List.foldl_cons, expand]
+    rw [run_sim rest _ _ hi hrest, hc]
+    simp [applyOps, List.foldl_append]
+
+/-- **C12_glob_is_expansion (partial: one block, attribute globs, no deletions)** — the operational semantics with
+    applied-set bookkeeping and lazy re-application computes exactly the board of the expanded program -/
+theorem C12_glob_is_expansion_partial (p : List GStmt) (hd : noDel p = true) :
+    (run m p).c = applyOps [] (expand m {} p) := by
+  have h0 : Inv m {} {} :=
+    ⟨rfl, rfl, fun g hg => absurd hg (by simp), fun g hg => absurd hg (by simp)⟩
+  simpa [run] using run_sim m p {} {} h0 hd
+
+/-! the excluded region is a real counterexample: after `d: null` the re-declared `d` is not globbed again -/
+def mAll : String → String → Bool := fun _ _ => true
+
+theorem C12_cx_redeclared_after_null :
+    (run mAll [.glob "*" "style.Opacity" "0.3", .decl "d", .del "d", .decl "d"]).c = [("d", [])] ∧
+    applyOps [] (expand mAll {} [.glob "*" "style.Opacity" "0.3", .decl "d", .del "d", .decl "d"]) =
+      [("d", [("style.Opacity", "0.3")])] := by
+  decide
+
+example : noDel [GStmt.glob "*" "k" "v", .decl "d", .set "e" "k" "w"] = true := by decide
+
+end D2V.GlobSem
